@@ -70,7 +70,7 @@ def gen_pdo_cat(rng, unaligned=False):
                 bitpos += bits
         ents = ents[:255]
         out += struct.pack("<HBbBBH", rng.randint(0x1600, 0x1bff), len(ents),
-                           rng.choice([2, 3]), 0, 0, 0)
+                           rng.choice([2, 3, 2, 3, 0, -1, -128]), 0, 0, 0)
         for idx, sub, bits in ents:
             out += struct.pack("<HBBBBH", idx, sub, 0, 0, bits, 0)
         entries += ents
